@@ -113,8 +113,8 @@ VMap(kk, m) == [k |-> "Map", kk |-> kk, m |-> m]
 VSet(kk, s) == [k |-> "Set", kk |-> kk, s |-> s]
 VStruct(f) == [k |-> "Struct", f |-> f]
 VEnum(id, v) == [k |-> "Enum", id |-> id, v |-> v]
-Restrict(f, S) == [x \in S |-> f[x]]
-Without(v, id) == VStruct(Restrict(v.f, DOMAIN v.f \ {id}))
+Restr(f, S) == [x \in S |-> f[x]]
+Without(v, id) == VStruct(Restr(v.f, DOMAIN v.f \ {id}))
 WithField(v, id, x) == VStruct((id :> x) @@ v.f)
 
 --------------------------------------------------------------------------------
@@ -194,7 +194,7 @@ EquivDef(a, b, d) ==
               IF fld.req THEN Equiv(a.f[fld.id], b.f[fld.id], fld.ty)
               ELSE /\ IsSomeAt(a, fld.id) <=> IsSomeAt(b, fld.id)
                    /\ IsSomeAt(a, fld.id) => Equiv(a.f[fld.id].v, b.f[fld.id].v, fld.ty)
-         /\ d.fb => Restrict(a.f, DOMAIN a.f \ FieldIds(d)) = Restrict(b.f, DOMAIN b.f \ FieldIds(d))
+         /\ d.fb => Restr(a.f, DOMAIN a.f \ FieldIds(d)) = Restr(b.f, DOMAIN b.f \ FieldIds(d))
     [] d.d = "enum" ->
          /\ a.id = b.id
          /\ IF a.id \in VarIds(d) THEN (VarOf(d, a.id).has => Equiv(a.v, b.v, VarOf(d, a.id).ty)) ELSE a = b
@@ -268,7 +268,7 @@ TransDef(v, d) ==
               IF ~st.ok THEN Fail
               ELSE IF \E j \in 1..Len(d.fields) : d.fields[j].req /\ d.fields[j].id \notin DOMAIN st.vars THEN Fail
               ELSE LET emitted == {id \in DOMAIN st.vars : FieldOf(d, id).req \/ st.vars[id].k = "Some"}   \* serialize_if_some
-                   IN Ok(VStruct(Restrict(st.vars, emitted) @@ st.unk))
+                   IN Ok(VStruct(Restr(st.vars, emitted) @@ st.unk))
     [] d.d = "enum" ->
          IF v.k # "Enum" THEN Fail
          ELSE IF v.id \in VarIds(d)
@@ -328,7 +328,7 @@ Samples(t) ==
     [] t.t = "vec" -> IF IsU8(t.a) THEN <<VLeaf("Bytes", 1), VLeaf("Bytes", 0)>>
                       ELSE LET s == Samples(t.a) IN <<VVec(<<s[1]>>), VVec(<<>>), VVec(<<Last2(s), s[1]>>)>>
     [] t.t = "array" -> LET s == Samples(t.a) IN
-                        <<VVec([i \in 1..t.n |-> s[1 + (i - 1) % Len(s)]]), VVec([i \in 1..t.n |-> Last2(s)])>>
+                        <<VVec([i \in 1..t.n |-> s[1 + ((i - 1) % Len(s))]]), VVec([i \in 1..t.n |-> Last2(s)])>>
     [] t.t = "map" -> LET s == Samples(t.a)  kk == KeyKindOf(t.k) IN
                       <<VMap(kk, 1 :> s[1]), VMap(kk, <<>>), VMap(kk, (0 :> Last2(s)) @@ (2 :> s[1]))>>
     [] t.t = "set" -> LET kk == KeyKindOf(t.a) IN <<VSet(kk, {1}), VSet(kk, {}), VSet(kk, {0, 1, 2, 3})>>
@@ -362,37 +362,39 @@ RECURSIVE Deep(_), DeepDef(_), AnyWrong(_)
 AnyWrong(t) == LET kw == KindWrongs(t) IN IF Len(kw) > 0 THEN <<kw[1]>> ELSE First1(Deep(t))
 \* structurally built non-instances: right container, wrong content
 Deep(t) ==
-  CASE t.t = "option" -> [i \in 1..Len(AnyWrong(t.a)) |-> VSome(AnyWrong(t.a)[i])]
+  CASE t.t = "option" -> LET w == AnyWrong(t.a) IN [i \in 1..Len(w) |-> VSome(w[i])]
     [] t.t = "box" -> Deep(t.a)
-    [] t.t = "vec" -> IF IsU8(t.a) THEN <<>> ELSE [i \in 1..Len(AnyWrong(t.a)) |-> VVec(<<Samples(t.a)[1], AnyWrong(t.a)[i]>>)]
-    [] t.t = "array" -> LET s == Samples(t.a)[1] IN
+    [] t.t = "vec" -> IF IsU8(t.a) THEN <<>> ELSE LET w == AnyWrong(t.a) IN [i \in 1..Len(w) |-> VVec(<<Samples(t.a)[1], w[i]>>)]
+    [] t.t = "array" -> LET s == Samples(t.a)[1]  w == AnyWrong(t.a) IN
                         <<VVec([i \in 1..(t.n + 1) |-> s]), VVec([i \in 1..(t.n - 1) |-> s])>>
-                        \o [i \in 1..Len(AnyWrong(t.a)) |-> VVec([x \in 1..t.n |-> IF x = t.n THEN AnyWrong(t.a)[i] ELSE s])]
-    [] t.t = "map" -> <<VMap(KeyOther(KeyKindOf(t.k)), 1 :> Samples(t.a)[1])>>
-                      \o [i \in 1..Len(AnyWrong(t.a)) |-> VMap(KeyKindOf(t.k), (1 :> Samples(t.a)[1]) @@ (2 :> AnyWrong(t.a)[i]))]
+                        \o [i \in 1..Len(w) |-> VVec([x \in 1..t.n |-> IF x = t.n THEN w[i] ELSE s])]
+    [] t.t = "map" -> LET w == AnyWrong(t.a)  s == Samples(t.a)[1] IN
+                      <<VMap(KeyOther(KeyKindOf(t.k)), 1 :> s)>>
+                      \o [i \in 1..Len(w) |-> VMap(KeyKindOf(t.k), (1 :> s) @@ (2 :> w[i]))]
     [] t.t = "set" -> <<VSet(KeyOther(KeyKindOf(t.a)), {1})>>
-    [] t.t = "result" -> <<VEnum(2, VNone)>> \o [i \in 1..Len(AnyWrong(t.a)) |-> VEnum(0, AnyWrong(t.a)[i])]
-                         \o [i \in 1..Len(AnyWrong(t.b)) |-> VEnum(1, AnyWrong(t.b)[i])]
+    [] t.t = "result" -> LET wa == AnyWrong(t.a)  wb == AnyWrong(t.b) IN
+                         <<VEnum(2, VNone)>> \o [i \in 1..Len(wa) |-> VEnum(0, wa[i])] \o [i \in 1..Len(wb) |-> VEnum(1, wb[i])]
     [] t.t = "ref" -> DeepDef(Lib[t.name])
     [] OTHER -> <<>>
 DeepDef(d) ==
   CASE d.d = "struct" ->
+         LET base == BaseStruct(d) IN
          FlattenSeq([j \in 1..Len(d.fields) |->
-           LET fld == d.fields[j] IN
-           (IF fld.req THEN <<Without(BaseStruct(d), fld.id)>> ELSE <<>>)
-           \o [i \in 1..Len(AnyWrong(FW(fld))) |-> WithField(BaseStruct(d), fld.id, AnyWrong(FW(fld))[i])]])
+           LET fld == d.fields[j]  w == AnyWrong(FW(fld)) IN
+           (IF fld.req THEN <<Without(base, fld.id)>> ELSE <<>>)
+           \o [i \in 1..Len(w) |-> WithField(base, fld.id, w[i])]])
     [] d.d = "enum" ->
          (IF d.fb THEN <<>> ELSE <<VEnum(77, VNone)>>)
          \o FlattenSeq([j \in 1..Len(d.vars) |->
-              LET var == d.vars[j] IN
-              IF var.has THEN [i \in 1..Len(AnyWrong(var.ty)) |-> VEnum(var.id, AnyWrong(var.ty)[i])]
+              LET var == d.vars[j]  w == AnyWrong(var.ty) IN
+              IF var.has THEN [i \in 1..Len(w) |-> VEnum(var.id, w[i])]
               ELSE <<VEnum(var.id, VLeaf("Bool", 1))>>])
     [] d.d = "newtype" -> Deep(d.ty)
 \* up to two kind-level non-instances (rotating through the pool with salt) plus the structural ones
 PickWrongs(t, salt) ==
   LET kw == KindWrongs(t)  n == Len(kw) IN
-  (IF n = 0 THEN <<>> ELSE IF n = 1 THEN <<kw[1]>> ELSE <<kw[1 + salt % n], kw[1 + (salt + 1 + n \div 2) % n]>>)
-  \o SubSeq(Deep(t), 1, IF Len(Deep(t)) > 3 THEN 3 ELSE Len(Deep(t)))
+  (IF n = 0 THEN <<>> ELSE IF n = 1 THEN <<kw[1]>> ELSE <<kw[1 + (salt % n)], kw[1 + ((salt + 1 + n \div 2) % n)]>>)
+  \o (LET dp == Deep(t) IN SubSeq(dp, 1, IF Len(dp) > 3 THEN 3 ELSE Len(dp)))
 
 --------------------------------------------------------------------------------
 (* Vectors of a definition: [cls, v]. Conforming classes first, then the mutations. *)
@@ -410,11 +412,11 @@ ConformingOf(d) ==
     [] d.d = "enum" ->
          FlattenSeq([j \in 1..Len(d.vars) |->
            LET var == d.vars[j] IN
-           IF var.has THEN [x \in 1..Len(Samples(var.ty)) |-> Item("conforming", VEnum(var.id, Samples(var.ty)[x]))]
+           IF var.has THEN LET sm == Samples(var.ty) IN [x \in 1..Len(sm) |-> Item("conforming", VEnum(var.id, sm[x]))]
            ELSE <<Item("conforming", VEnum(var.id, VNone))>>])
          \o (IF d.fb THEN <<Item("unknown_variant", VEnum(77, VNone)), Item("unknown_variant", VEnum(9, VVec(<<VLeaf("U8", 1), VNone>>))),
                             Item("unknown_variant", VEnum(6, VStruct(2 :> VLeaf("String", 2))))>> ELSE <<>>)
-    [] d.d = "newtype" -> [x \in 1..Len(Samples(d.ty)) |-> Item("conforming", Samples(d.ty)[x])]
+    [] d.d = "newtype" -> LET sm == Samples(d.ty) IN [x \in 1..Len(sm) |-> Item("conforming", sm[x])]
 
 MutationsOf(d, salt) ==
   CASE d.d = "struct" ->
@@ -433,7 +435,7 @@ MutationsOf(d, salt) ==
               IF var.has THEN [x \in 1..Len(w) |-> Item("wrong_payload_type", VEnum(var.id, w[x]))]
               ELSE <<Item("wrong_payload_type", VEnum(var.id, VLeaf("Bool", 1))), Item("wrong_payload_type", VEnum(var.id, VSome(VNone)))>>])
     [] d.d = "newtype" -> LET w == PickWrongs(d.ty, salt) IN [x \in 1..Len(w) |-> Item("wrong_type", w[x])]
-Mutations(v, d) == {m.v : m \in {MutationsOf(d, 0)[i] : i \in 1..Len(MutationsOf(d, 0))}}   \* (design name; v is the base value)
+Mutations(d) == {MutationsOf(d, 0)[i].v : i \in 1..Len(MutationsOf(d, 0))}          \* (the design's name for the set)
 
 IsConformingClass(cls) == cls \in {"conforming", "optional_absent", "minimal", "unknown_fields", "unknown_variant"}
 
@@ -447,39 +449,39 @@ Keys == [i \in 1..10 |-> TPrim(<<"u8", "i8", "u16", "i16", "u32", "i32", "u64", 
 NK == Len(Keys)
 Un(c, a) == CASE c = 0 -> TOpt(a) [] c = 1 -> TBox(a) [] c = 2 -> TVec(a) [] c = 3 -> TSender(a) [] c = 4 -> TReceiver(a)
 L1 == [i \in 1..N0 |-> Un(i % 5, L0[i])] \o [i \in 1..N0 |-> Un((i + 2) % 5, L0[i])]
-      \o [i \in 1..NK |-> TSet(Keys[i])] \o [i \in 1..NK |-> TMap(Keys[i], L0[1 + (5 * i) % N0])]
-      \o [i \in 1..6 |-> TRes(L0[1 + (4 * i) % N0], L0[1 + (4 * i + 11) % N0])]
-      \o [i \in 1..6 |-> TArr(L0[1 + (3 * i + 1) % N0], 1 + i % 3)]
+      \o [i \in 1..NK |-> TSet(Keys[i])] \o [i \in 1..NK |-> TMap(Keys[i], L0[1 + ((5 * i) % N0)])]
+      \o [i \in 1..6 |-> TRes(L0[1 + ((4 * i) % N0)], L0[1 + ((4 * i + 11) % N0)])]
+      \o [i \in 1..6 |-> TArr(L0[1 + ((3 * i + 1) % N0)], 1 + (i % 3))]
 Inner(c, x) ==
   CASE c <= 4 -> Un(c, L0[x])
-    [] c = 5 -> TMap(Keys[1 + x % NK], L0[x])
-    [] c = 6 -> TRes(L0[x], L0[1 + (x + 6) % N0])
-    [] c = 7 -> TArr(L0[x], 1 + x % 2)
-    [] c = 8 -> TSet(Keys[1 + x % NK])
+    [] c = 5 -> TMap(Keys[1 + (x % NK)], L0[x])
+    [] c = 6 -> TRes(L0[x], L0[1 + ((x + 6) % N0)])
+    [] c = 7 -> TArr(L0[x], 1 + (x % 2))
+    [] c = 8 -> TSet(Keys[1 + (x % NK)])
 Outer(c, in, x) ==
   CASE c <= 4 -> Un(c, in)
-    [] c = 5 -> TMap(Keys[1 + (5 * x) % NK], in)
+    [] c = 5 -> TMap(Keys[1 + ((5 * x) % NK)], in)
     [] c = 6 -> IF x % 2 = 0 THEN TRes(in, L0[x]) ELSE TRes(L0[x], in)
-    [] c = 7 -> TArr(in, 1 + x % 3)
-L2 == [p \in 1..72 |-> LET o == (p - 1) \div 9  c == (p - 1) % 9  x == 1 + (7 * p) % N0 IN Outer(o, Inner(c, x), x)]
+    [] c = 7 -> TArr(in, 1 + (x % 3))
+L2 == [p \in 1..72 |-> LET o == (p - 1) \div 9  c == (p - 1) % 9  x == 1 + ((7 * p) % N0) IN Outer(o, Inner(c, x), x)]
 FT == L0 \o L1 \o L2                      \* every field / payload / target type of the corpus comes from here
 NFT == Len(FT)
 
-IdPat == <<<<1, 2, 3>>, <<3, 1, 2>>, <<0, 10, 300>>, <<7, 5, 6>>>>          \* (never 4, 9, 90, 91: injected / added ids)
-VarPat == <<<<0, 1, 2>>, <<3, 1, 8>>, <<10, 20, 5>>>>                        \* (never 6, 9, 77)
+IdPat == <<<<1, 2, 3>>, <<3, 1, 2>>, <<0, 10, 300>>, <<7, 5, 6>>>>          \* (never 4, 12, 90, 91: injected / added ids)
+VarPat == <<<<0, 1, 2>>, <<3, 1, 8>>, <<10, 20, 5>>>>                        \* (never 6, 9, 12, 77)
 Bit(m, j) == (m \div (2 ^ (j - 1))) % 2 = 1
-Slot(s, n) == FT[1 + (31 * s + 7 * n) % NFT]                                 \* 7 is coprime to NFT = 183
+Slot(s, n) == FT[1 + ((31 * s + 7 * n) % NFT)]                                 \* 7 is coprime to NFT = 183
 
 \* struct number i: shape by index arithmetic on (i, seed); field types from consecutive slots
-NFields(i, s) == IF (i + s) % 11 = 0 THEN 0 ELSE 1 + (i + s) % 3
+NFields(i, s) == IF (i + s) % 11 = 0 THEN 0 ELSE 1 + ((i + s) % 3)
 RECURSIVE SlotsBefore(_, _)
 SlotsBefore(i, s) == IF i <= 1 THEN 0 ELSE SlotsBefore(i - 1, s) + NFields(i - 1, s)
 GenStruct(i, s, name) ==
-  LET nf == NFields(i, s)  ids == IdPat[1 + (i + s) % 4]  mask == (5 * i + s) % 8  b == SlotsBefore(i, s) IN
+  LET nf == NFields(i, s)  ids == IdPat[1 + ((i + s) % 4)]  mask == (5 * i + s) % 8  b == SlotsBefore(i, s) IN
   DStruct(name, [j \in 1..nf |-> Fld(ids[j], Bit(mask, j), Slot(s, b + j))], (i \div 2 + s) % 2 = 0)
-NVars(i, s) == 1 + (i + s) % 3
+NVars(i, s) == 1 + ((i + s) % 3)
 GenEnum(i, s, name, base) ==
-  LET nv == NVars(i, s)  ids == VarPat[1 + (i + s) % 3] IN
+  LET nv == NVars(i, s)  ids == VarPat[1 + ((i + s) % 3)] IN
   DEnum(name, [j \in 1..nv |-> LET has == (3 * i + j + s) % 3 # 0 IN Var(ids[j], has, IF has THEN Slot(s, base + 3 * i + j) ELSE TUnit)],
         (i + s) % 2 = 0)
 GenNewtype(i, s, name, base) == DNewtype(name, Slot(s, base + i))
@@ -490,10 +492,10 @@ PairOf(q, s, nameOld, nameNew, base) ==
       t1 == Slot(s, base + 3 * q)  t2 == Slot(s, base + 3 * q + 1)  t3 == Slot(s, base + 3 * q + 2) IN
   IF fieldAdded
     THEN LET fs == <<Fld(1, TRUE, t1), Fld(3, FALSE, t2)>> IN
-         [kind |-> "field_added", newid |-> 9, old |-> DStruct(nameOld, fs, fb), new |-> DStruct(nameNew, fs \o <<Fld(9, strong, t3)>>, fb)]
+         [kind |-> "field_added", newid |-> 12, old |-> DStruct(nameOld, fs, fb), new |-> DStruct(nameNew, fs \o <<Fld(12, strong, t3)>>, fb)]
     ELSE LET vs == <<Var(1, FALSE, TUnit), Var(2, TRUE, t1)>> IN
-         [kind |-> "variant_added", newid |-> 9, old |-> DEnum(nameOld, vs, fb),
-          new |-> DEnum(nameNew, vs \o <<Var(9, strong, IF strong THEN t2 ELSE TUnit)>>, fb)]
+         [kind |-> "variant_added", newid |-> 12, old |-> DEnum(nameOld, vs, fb),
+          new |-> DEnum(nameNew, vs \o <<Var(12, strong, IF strong THEN t2 ELSE TUnit)>>, fb)]
 
 \* where a struct / enum is declared: a top-level definition, or inline in a service (args / ok / err of a
 \* function, argument of an event) -- names::function_args etc. name the generated Rust type
@@ -504,8 +506,9 @@ Nm(p, i) == p \o ToString(i)
 \* entries: [def, home, vecs: <<[cls, chain: names, v]>>, pair: 0 | index of the partner]
 Entry(d, home, items) == [def |-> d, home |-> home, items |-> items]
 SelfItems(d, salt) ==
-  [x \in 1..Len(ConformingOf(d)) |-> [cls |-> ConformingOf(d)[x].cls, chain |-> <<d.name, d.name>>, v |-> ConformingOf(d)[x].v]]
-  \o [x \in 1..Len(MutationsOf(d, salt)) |-> [cls |-> MutationsOf(d, salt)[x].cls, chain |-> <<d.name>>, v |-> MutationsOf(d, salt)[x].v]]
+  LET c == ConformingOf(d)  m == MutationsOf(d, salt) IN
+  [x \in 1..Len(c) |-> [cls |-> c[x].cls, chain |-> <<d.name, d.name>>, v |-> c[x].v]]
+  \o [x \in 1..Len(m) |-> [cls |-> m[x].cls, chain |-> <<d.name>>, v |-> m[x].v]]
 PairItems(p) ==
   LET cn == ConformingOf(p.new)  co == ConformingOf(p.old) IN
   [x \in 1..Len(cn) |-> [cls |-> "new_via_old", chain |-> <<p.old.name, p.new.name>>, v |-> cn[x].v]]
@@ -515,7 +518,7 @@ Corpus(seed, thorough) ==
   LET z == Sizes(thorough)  s == seed
       eb == 3 * z.ns + 5  nb == eb + 3 * z.ne + 5  pb == nb + z.nn + 5
       q0 == IF thorough THEN 0 ELSE 3 * s
-  IN [i \in 1..Len(LibNames) |-> Entry(Lib[LibNames[i]], "lib", SelfItems(Lib[LibNames[i]], i))]
+  IN [i \in 1..Len(LibNames) |-> Entry(Lib[LibNames[i]], IF LibNames[i] \in LibExtern THEN "lib" ELSE "intern", SelfItems(Lib[LibNames[i]], i))]
      \o [i \in 1..z.ns |-> LET d == GenStruct(i, s, Nm("S", i)) IN Entry(d, HomeOf(i), SelfItems(d, i + s))]
      \o [i \in 1..z.ne |-> LET d == GenEnum(i, s, Nm("E", i), eb) IN Entry(d, HomeOf(i + 1), SelfItems(d, i + s))]
      \o [i \in 1..z.nn |-> LET d == GenNewtype(i, s, Nm("N", i), nb) IN Entry(d, "def", SelfItems(d, i + s))]
